@@ -9,6 +9,25 @@ from ..mon import exec_mon
 from ..ref import refcoerce
 from ..ref.refcoerce import Var
 
+
+class _AutoDict(collections.defaultdict):
+    """A JSON object held in a dict subclass that defines __missing__ (defaultdict trees, Counter): an absent key
+    is still absent."""
+
+
+def autovivify(rng, v, top=True):
+    """The same payload with (some of) its objects held in auto-vivifying defaultdicts."""
+    if isinstance(v, dict):
+        inner = dict((k, autovivify(rng, x, False)) for k, x in v.items())
+        if not top and rng.random() < 0.7:
+            d = _AutoDict(lambda: _AutoDict(int))
+            d.update(inner)
+            return d
+        return inner
+    if isinstance(v, list):
+        return [autovivify(rng, x, False) for x in v]
+    return v
+
 RULE = (
     "for generated schemas, every root field (and custom directive) with arguments is called end to "
     "end through graphql_blocking with each argument independently omitted / given inline / given "
@@ -233,7 +252,7 @@ def end_to_end_field(ctx, rng, case, f):
     case.binding.calls = []
     case.watch_directives = []
     try:
-        result = py_gql.graphql_blocking(case.schema, text, variables=provided, root=case.binding.root_value(ir.query))
+        result = py_gql.graphql_blocking(case.schema, text, variables=(autovivify(rng, provided) if len(text) % 4 == 0 else provided), root=case.binding.root_value(ir.query))
     except Exception as e:
         ctx.violation("entry-point-raises:%s" % type(e).__name__, witness, repr(e)[:300])
         return
@@ -305,7 +324,7 @@ def end_to_end_routes(ctx, rng, case, f):
         texts.append((text, provided))
         case.binding.calls = []
         try:
-            py_gql.graphql_blocking(case.schema, text, variables=provided, root=case.binding.root_value(ir.query))
+            py_gql.graphql_blocking(case.schema, text, variables=(autovivify(rng, provided) if len(text) % 4 == 0 else provided), root=case.binding.root_value(ir.query))
         except Exception as e:
             ctx.violation("entry-point-raises:%s" % type(e).__name__, {"schema_sdl": case.sdl, "document": text}, repr(e)[:200])
             return
@@ -342,7 +361,7 @@ def end_to_end_directive(ctx, rng, case, f, d):
     case.directive_args = []
     case.watch_directives = [d.name]
     try:
-        result = py_gql.graphql_blocking(case.schema, text, variables=provided, root=case.binding.root_value(ir.query))
+        result = py_gql.graphql_blocking(case.schema, text, variables=(autovivify(rng, provided) if len(text) % 4 == 0 else provided), root=case.binding.root_value(ir.query))
     except Exception as e:
         case.watch_directives = []
         ctx.violation("directive:entry-point-raises:%s" % type(e).__name__, witness, repr(e)[:300])
@@ -408,7 +427,7 @@ def direct_api(ctx, rng, case):
     ctx.evaluated()
     ctx.count("direct:coerce_value")
     try:
-        got = ("ok", coerce_value(jv, lib_type))
+        got = ("ok", coerce_value(autovivify(rng, jv, False) if rng.random() < 0.25 else jv, lib_type))
     except (CoercionError, InvalidValue) as e:
         got = ("reject", e)
     except Exception as e:
